@@ -91,4 +91,19 @@ theorem translated_loop_body (buf : Bytes) (pos len acc k : Nat) :
     Gen.fn_utils_GetBitsAsUint64_body (buf.map (·.toNat)) pos len (pos + k) acc = stepU buf pos acc k :=
   translated_bits_body buf pos len acc k
 
+/-- **Translator tie, signed read**: the two's-complement arithmetic of `GetBitsAsInt64` (`mask`,
+    the weights of the top and of the lower bits, their wrapped difference) is regenerated from
+    the `if negative { … }` branch of the source on every run; the model's signed read is that
+    code applied to the two unsigned reads, for every buffer, position and length from 2 up to
+    what a `uint` holds.  (The translator also checks that the statements around the branch are
+    the two reads and the final `int64(uval)`.) -/
+theorem translated_signed_branch (buf : Bytes) (pos len : Nat) (h2 : 2 ≤ len) (h : len < 2 ^ 64) :
+    getBitsI buf pos len =
+      if getBitsU buf pos 1 == 1 then Gen.fn_utils_GetBitsAsInt64_neg (getBitsU buf pos len) len
+      else toI64 (getBitsU buf pos len) :=
+  getBitsI_translated buf pos len h2 h
+
+/-- Non-vacuity (a test): the translated branch on the 10 one-bits is -1, on 1000000000₂ is -512. -/
+example : Gen.fn_utils_GetBitsAsInt64_neg 1023 10 = -1 ∧ Gen.fn_utils_GetBitsAsInt64_neg 512 10 = -512 := by decide
+
 end Ntrip.C14
